@@ -215,6 +215,7 @@ def run(ctx):
     single_pass_unescape(ctx)
     table_entry_arithmetic(ctx)
     case_mapping_skip(ctx)
+    escaped_delimiter_in_grammar(ctx)
 
 
 def table_lookups(ctx):
@@ -582,3 +583,39 @@ def case_mapping_skip(ctx):
         for bb, _, what in bad:
             r9.fail('%s/skip-condition' % fname, mirq.site(b, bb), '%s keeps the original text when: %s.  That does not imply that every character is its own image: titlecase letters (U+01C5, U+1F88, ...) are neither uppercase nor lowercase and are mapped by both, so "\\u{1C5}".%s() stays unmapped' % (fname, what, 'lower' if fname == 'to_lowercase' else 'upper'))
     r9.need(2)
+
+
+def escaped_delimiter_in_grammar(ctx):
+    """R18.10: the book lists `\\"` and `\\'` among the escape sequences.  In a literal delimited by the same quote the escape only
+    works if the *grammar* consumes backslash + delimiter as one unit -- otherwise the quote after the backslash ends the literal.
+    For every string-body rule that treats backslashes specially (it has the `\\\\` alternative: quoted and formatted strings, not
+    raw ones), the alternatives consumed before the fallback ANY contain the two-character literal backslash + own delimiter."""
+    g = ctx.grammar
+    r10 = ctx.rule('R18.10', 'string bodies consume an escaped delimiter as a unit (the documented \\" and \\\' work inside literals of the same quote)')
+
+    def leaves(e):
+        if e['k'] == 'choice':
+            return leaves(e['a']) + leaves(e['b'])
+        return [e]
+    n = 0
+    for r in g['rules']:
+        e = r['expr']
+        if e['k'] in ('rep', 'reponce'):
+            e = e['e']
+        else:
+            continue
+        if not (e['k'] == 'seq' and e['a']['k'] == 'negpred'):
+            continue
+        stop = e['a']['e']
+        if not (stop['k'] == 'seq' and stop['a']['k'] == 'str' and stop['b'].get('v') == 'PEEK'):
+            continue
+        delim = stop['a']['v']
+        alts = [x['v'] for x in leaves(e['b']) if x['k'] == 'str']
+        if '\\\\' not in alts:
+            continue     # a raw body: backslashes mean nothing
+        n += 1
+        ok = ('\\' + delim) in alts
+        r10.inst({'rule': r['name'], 'delimiter': delim, 'unit_alternatives': alts, 'escaped_delimiter_consumed': ok}, ok=ok, kind=r['name'])
+        if not ok:
+            r10.fail('grammar/%s/escaped-delimiter' % r['name'], 'src/xray.pest', 'the body rule `%s` of a literal delimited by %s has no alternative for backslash + %s (its unit alternatives are %s): the documented escape \\%s ends the literal instead of denoting the quote (%sa\\%sb%s is a syntax error)' % (r['name'], delim, delim, alts, delim, delim, delim, delim))
+    r10.need(4)
